@@ -2,6 +2,7 @@
   Finv (C04), part 26: one step and histories — every call in `Op.core` preserves the invariant.
 -/
 import XotModel.Lemmas.FinvUnwrap2
+import XotModel.Lemmas.FinvWs
 
 namespace XotModel
 namespace Forest
